@@ -31,7 +31,9 @@ func configs() []cfg {
 		{id: "C11", pkg: "checks/c11", level: "exploration", workers: 16},
 		{id: "C12", pkg: "checks/c12", level: "exploration", workers: 16},
 		{id: "C13", pkg: "checks/c13", level: "model_checking", workers: 16, instr: wsI},
-		{id: "C14", pkg: "checks/c14", level: "model_checking", workers: 16, instr: wsI, thoroBud: 45 * time.Minute},
+		{id: "C14", pkg: "checks/c14", level: "model_checking", workers: 16, thoroBud: 45 * time.Minute,
+			// the reader's own replies (pong, close echo) carry a 1 s wall-clock write deadline: the clock is frozen (R2) and timers never fire (R2b)
+			instr: []instr.PkgRules{{Pkg: "websocket", SyncSwap: true, ChanLock: []string{"mu"}, Time: true, Timers: true, Export: "websocket/verif_export.go"}}},
 		{id: "C15", pkg: "checks/c15", level: "model_checking", workers: 16, race: true,
 			instr: []instr.PkgRules{{Pkg: "websocket", SyncSwap: true, ChanLock: []string{"mu"}, Timers: true, Export: "websocket/verif_export.go"}}},
 		{id: "C16", pkg: "checks/c16", level: "fault_enumeration", workers: 16,
